@@ -463,7 +463,58 @@ func ruleC05Extra(c *Ctx) {
 		}
 		c.R.Check(okKeys, rule, "unmarshal:delete-keys-are-name-set", c.pos(call), "the deleted keys range over the struct's JSON-name set", "the deleted keys do not range over the JSON-name set computed by the package")
 	})
-	c.R.Floor(rule, "deletions from the generic map in the unmarshal splice helper", nDel, 1)
+	// the constructive form: the Extra map is built from the keys that are not JSON names of the struct
+	var nonMember func(mu *ssa.MapUpdate, depth int) bool
+	nonMember = func(mu *ssa.MapUpdate, depth int) bool {
+		for _, g := range guardsOf(mu) {
+			if lk, ok := g.Cond.(*ssa.Lookup); ok && !g.Pol && sharesSource(lk.Index, mu.Key) && c.fromPkgCall(lk.X) != nil {
+				return true
+			}
+		}
+		if depth == 0 {
+			return false
+		}
+		// the key ranges over another map: every entry of that map must have been entered under the test
+		for _, src := range append(traceSources(mu.Key), mu.Key) {
+			ext, ok := src.(*ssa.Extract)
+			if !ok {
+				continue
+			}
+			nx, ok := ext.Tuple.(*ssa.Next)
+			if !ok {
+				continue
+			}
+			rg, ok := nx.Iter.(*ssa.Range)
+			if !ok {
+				continue
+			}
+			n, all := 0, true
+			core.EachInstr(uh, func(i ssa.Instruction) {
+				if mu2, ok := i.(*ssa.MapUpdate); ok && mu2 != mu && sharesSource(mu2.Map, rg.X) {
+					n++
+					if !nonMember(mu2, depth-1) {
+						all = false
+					}
+				}
+			})
+			if n > 0 && all {
+				return true
+			}
+		}
+		return false
+	}
+	core.EachInstr(uh, func(i ssa.Instruction) {
+		mu, ok := i.(*ssa.MapUpdate)
+		if !ok {
+			return
+		}
+		if mt, isMap := mu.Map.Type().Underlying().(*types.Map); !isMap || !isEmptyInterface(mt.Elem()) {
+			return
+		}
+		nDel++
+		c.R.Check(nonMember(mu, 2), rule, "unmarshal:only-unknown-keys-entered", c.pos(mu), "a key enters the Extra map only after the test that it is not a JSON name of the struct", "a key is entered into the Extra map without the test that it is not one of the struct's JSON names: a known keyword can end up in Extra and be emitted twice on marshal")
+	})
+	c.R.Floor(rule, "deletions from (or guarded entries into) the generic map in the unmarshal splice helper", nDel, 1)
 	// marshal: a key of the map that duplicates a struct field is an error
 	fm := core.Info(mh)
 	okDup := false
